@@ -178,7 +178,7 @@ type c07Op struct {
 }
 
 func runC07(run *common.Run) {
-	run.Rule = "case = one history of 3-6 HTTP client goroutines x 5-8 operations on 2 object names of one bucket (memory store and file store): unconditional uploads with unique content, uploads conditioned on non-existence or on a generation the client learned earlier, metageneration-conditioned patches each merging a unique value under the patching client's own metadata key (a patch must keep the other keys), conditioned deletes, compose into and copy onto the contended name from per-operation static sources (copy sources in the same or in a second bucket), metadata GETs and media GETs; recorded at the HTTP client boundary with a logical clock, with bounded holds at the handlers' check-then-act yield points (*.afterCheck, copy.locked) and between the file store's two writes (fs.add.*). Oracle: porcupine per object against a sequential object model in which a generation is identified by the unique write that created it; plus monitors: one generation number never shows two contents and one write never shows two generations; among writers conditioned on the same state at most one succeeds (follows from the model, counted). Non-trivial = history with at least two overlapping operations on one object and at least one conditioned write that lost; distinct by history."
+	run.Rule = "case = one history of 3-6 HTTP client goroutines x 5-8 operations on 2 object names of one bucket (memory store and file store): unconditional uploads with unique content, uploads conditioned on non-existence or on a generation the client learned earlier, metageneration-conditioned patches each merging a unique value under the patching client's own metadata key (a patch must keep the other keys), conditioned deletes, compose into and copy onto the contended name from per-operation static sources (copy sources in the same or in a second bucket), metadata GETs and media GETs; recorded at the HTTP client boundary with a logical clock, with bounded holds at the handlers' check-then-act yield points (*.afterCheck, copy.locked) and between the file store's two writes (fs.add.*). Oracle: porcupine per object against a sequential object model in which a generation is identified by the unique write that created it; plus monitors: one generation number never shows two contents and one write never shows two generations; among writers conditioned on the same state at most one succeeds (follows from the model, counted). Part 'fresh': six clients upload six different objects (conditioned on non-existence) into a bucket that does not exist yet while a seventh creates it; every acknowledged upload must afterwards be served with the generation it was told. Non-trivial = history with at least two overlapping operations on one object and at least one conditioned write that lost; distinct by history."
 	run.Assumptions = []string{"porcupine v1.3.0", "an upload's own JSON response is used only to learn the generation when it reports the uploader's own MD5 (the handler reads it back after releasing the object lock)", "holds are bounded sleeps, never a verdict"}
 	var hits sync.Map
 	var holds, seq int64
@@ -205,6 +205,9 @@ func runC07(run *common.Run) {
 		c07History(run, i, drive.Stores[i%2])
 		j.End(i % 8)
 	})
+	if run.WantSub("fresh") && !run.TooMany() {
+		c07FreshBuckets(run)
+	}
 	nhit := 0
 	hits.Range(func(k, v any) bool {
 		nhit++
@@ -218,6 +221,104 @@ func runC07(run *common.Run) {
 	}
 	if run.Replay == nil && run.Counter("histories_with_overlap") == 0 {
 		run.Blind("no history had two overlapping operations on one object")
+	}
+}
+
+// c07FreshBuckets: the first writes to a bucket that does not exist yet (the stores create it on the fly), all at once:
+// six clients upload six different objects conditioned on non-existence while a seventh creates the bucket explicitly.
+// Every acknowledged upload must afterwards be served with the generation its answer reported, and be listed.
+func c07FreshBuckets(run *common.Run) {
+	iters := run.N(2000, 80000)
+	for si, store := range drive.Stores {
+		n := iters
+		if store == "file" {
+			n = iters / 8 // a directory per bucket
+		}
+		srv, err := drive.Start(store, "")
+		if err != nil {
+			run.Violation("fresh", si, "cannot start server: "+err.Error(), nil)
+			return
+		}
+		const K = 6
+		clients := make([]*drive.Client, K+1)
+		for c := range clients {
+			clients[c] = drive.NewClient(srv.Base)
+		}
+		type ack struct {
+			name string
+			gen  int64
+		}
+		for it := 0; it < n && !run.TooMany(); it++ {
+			idx := si*1_000_000 + it
+			if !run.Want("fresh", idx) {
+				continue
+			}
+			b := fmt.Sprintf("fresh-%d-%d", run.Seed, it)
+			start := make(chan struct{})
+			acks := make([]ack, K)
+			errs := make([]string, K)
+			var wg sync.WaitGroup
+			for c := 0; c < K; c++ {
+				wg.Add(1)
+				go func(c int) {
+					defer wg.Done()
+					<-start
+					name := fmt.Sprintf("o%d", c)
+					rsp := clients[c].UploadMedia(b, name, "text/plain", []byte("first write of "+name), false, [][2]string{{"ifGenerationMatch", "0"}})
+					if rsp.OK() {
+						if m, err := rsp.JSON(); err == nil {
+							g, _ := drive.Int64Field(m, "generation")
+							acks[c] = ack{name, g}
+						}
+					} else if rsp.Status != 404 { // a store may refuse uploads into a bucket that does not exist
+						errs[c] = rsp.String()
+					}
+				}(c)
+			}
+			wg.Add(1)
+			go func() {
+				defer wg.Done()
+				<-start
+				clients[K].CreateBucket(b)
+			}()
+			close(start)
+			wg.Wait()
+			bad := ""
+			nack := 0
+			for c := 0; c < K && bad == ""; c++ {
+				if errs[c] != "" {
+					bad = "first upload into a fresh bucket failed: " + errs[c]
+					break
+				}
+				if acks[c].name == "" {
+					continue
+				}
+				nack++
+				rsp := clients[c].GetMeta(b, acks[c].name)
+				if !rsp.OK() {
+					bad = fmt.Sprintf("upload of %s/%s was acknowledged with generation %d, but the object is not served afterwards: %s (the update was lost)", b, acks[c].name, acks[c].gen, rsp)
+					break
+				}
+				if m, err := rsp.JSON(); err == nil {
+					if g, _ := drive.Int64Field(m, "generation"); g != acks[c].gen {
+						bad = fmt.Sprintf("upload of %s/%s was acknowledged with generation %d, but the object is served with generation %d although nobody else wrote it", b, acks[c].name, acks[c].gen, g)
+					}
+				}
+			}
+			if bad != "" {
+				run.Violation("fresh", idx, bad+" (store "+store+")", map[string]any{"store": store, "bucket": b})
+			}
+			run.Case(common.Hash64("fresh", store, fmt.Sprint(it)), nack >= 2)
+			run.Count("fresh_bucket_rounds", 1)
+			run.Count("first_writes_acknowledged", int64(nack))
+			if store == "file" {
+				clients[K].Do("DELETE", "/storage/v1/b/"+b, nil, nil) // keep the scratch directory small
+			}
+		}
+		for _, c := range clients {
+			c.Close()
+		}
+		srv.Close()
 	}
 }
 
